@@ -66,7 +66,7 @@ func hasPath(e xast.Expr) bool {
 
 func TestC08Rapid(t *testing.T) {
 	runRapid(t, uC08, func(rt *rapid.T) {
-		doc := xgen.Doc(rt, xgen.NumDoc())
+		doc := xgen.Doc(rt, xgen.WithNumberish(rt, xgen.NumDoc(), 3))
 		ctx := xgen.Context(rt, doc, 5)
 		g := xgen.NewG(rt, doc)
 		var e xast.Expr = g.Arith(ctx, rapid.IntRange(0, 3).Draw(rt, "depth"))
